@@ -17,10 +17,15 @@
     expandi <iforest>                                 → flat            iforest: ( id:keyhex child … ) …, the same id = the same object
     temp <inode> <n>                                  → <inode>         to_temporary with new object ids n, n+1, …
     write <inode> <n> <path> <inode value>            → E <inode> T <inode> / IndexError   seqs.update(temp.attrs, path, value, 'attrs') seen on the entry and the copy
+    t.inv <module> <keyhex=rank,…|->                  → Loaded=<bool> SymOK=<bool>   the hypotheses of C14.order / C14.rt, evaluated by their Lean definitions
+    dsn.join <delim char hex> <part;part;…>           → hex             DSN.join
+    dsn.full <dsn> <elem;elem;…>                      → hex             ModuleDSN.full_joined
+    dsn.parsed <dsn>                                  → hex hex         ModuleDSN.parsed
     t.unload <module> | t.complete <module> (on_complete) | t.completed <module> | t.has <module> | t.keys | t.get <key>
 -/
 import Tranp.Driver.Common
 import Tranp.Model.SymbolJson
+import Tranp.Lemmas.SymbolJson
 
 namespace Tranp.Driver.SymJson
 open Tranp Tranp.SymbolJson Tranp.Driver
@@ -247,6 +252,35 @@ def step (st : St) : List String → St × String
       match importKeep st.world st.tbl rows with
       | (t, none) => ({ st with tbl := t }, "ok")
       | (t, some e) => ({ st with tbl := t }, e.toString)
+    | none => (st, "bad-op")
+  | ["t.inv", m, ranks] =>
+    match Str.unhex m with
+    | some m =>
+      let rk : Option (List (Str × Nat)) :=
+        if ranks == "-" then some [] else
+        (ranks.splitOn ",").mapM (fun item => match item.splitOn "=" with
+          | [k, n] => do pure ((← Str.unhex k), (← n.toNat?))
+          | _ => none)
+      match rk with
+      | some rk =>
+        let rank : Str → Nat := fun k => match dictGet? rk k with | some r => r | none => 0
+        let W := st.world
+        let l := decide (Loaded W st.tbl m rank)
+        let o := st.tbl.items.all (fun ks => modOf ks.1 != m || symOKb W st.tbl ks.2)
+        (st, s!"Loaded={l} SymOK={o}")
+      | none => (st, "bad-op")
+    | none => (st, "bad-op")
+  | ["dsn.join", d, parts] =>
+    match Str.unhex d, (if parts == "" then some [] else (parts.splitOn ";").mapM Str.unhex) with
+    | some [c], some ps => (st, Str.hex (dsnJoin c ps))
+    | _, _ => (st, "bad-op")
+  | ["dsn.full", d, elems] =>
+    match Str.unhex d, (if elems == "" then some [] else (elems.splitOn ";").mapM Str.unhex) with
+    | some d, some es => (st, Str.hex (fullJoined d es))
+    | _, _ => (st, "bad-op")
+  | ["dsn.parsed", d] =>
+    match Str.unhex d with
+    | some d => (st, s!"{Str.hex (dsnParsed d).1} {Str.hex (dsnParsed d).2}")
     | none => (st, "bad-op")
   | ["t.unload", m] =>
     match Str.unhex m with
